@@ -995,6 +995,23 @@ def run(ctx, report):
             else:
                 R10.ok(inst, sample='%s: %s, with 66: %s' % (kstr, n32, n16))
 
+    # the byte forms of the string instructions ignore the operand-size prefix: 66 a4 is still movsb on byte operands
+    w8k = E['w8']
+    for stem in ('movs', 'cmps', 'stos', 'lods', 'scas'):
+        nb = stem + 'b'
+        cb = [c_ for c_ in X.cells.values() if c_.name == nb]
+        if not cb:
+            continue
+        for pfx_ in ([0x66], [0xF3, 0x66], [0x66, 0x26]):
+            name16, args16, _ = SO.special(X, nb, afs.u16, pfx_, cb[0].modifs, [])
+            inst = '66 %s (%s)' % (nb, ' '.join('%02X' % b_ for b_ in pfx_))
+            sizes = set(a_.get(afs.size) for a_ in args16)
+            if name16 == nb and sizes == {afs.u08}:
+                R10.ok(inst, sample='%s under the operand-size prefix: still %s on byte operands' % (nb, nb))
+            else:
+                R10.violation(inst, 'size-name:%s:byte-form' % stem, 'prefix %s in front of %s (a byte instruction: the operand-size prefix has no effect) is reported as %s with operand sizes %s'
+                              % (' '.join('%02X' % b_ for b_ in pfx_), nb, name16, sorted(map(str, sizes))), where(arch, arch.method('x86_mn', 'special_opcodes')), witness='66 a4 is movsb')
+
     # ---------------------------------------------------------------- D9 a decode cannot change what the next decode returns
     R9 = report.rule('C01.D9', 'operands handed to a decoded instruction are objects created by that decode (never a shared table entry)', floor=8)
     from .c12 import operand_ownership_rule
